@@ -671,7 +671,9 @@ def run(chk: Check):
                        "pending/completed/foreign/not-yet-issued IDs, stray datagrams, reliable and unreliable sends, "
                        "clock steps; plus a configuration where permanent / one_shot / returns-True / wait_for() subscribers are "
                        "registered at session and region level in every order) replayed into a fresh real endpoint with the "
-                       "full observation compared (calls of every subscriber ever registered); "
+                       "full observation compared (calls of every subscriber ever registered); every action that leaves the abstract "
+                       "state unchanged (stray datagram, idle clock step) is additionally replayed in front of every edge of its "
+                       "state (quick: an even spread of those pairs for the two larger configurations); "
                        "non-trivial = edges with a suppressed duplicate, a completion, a retransmission or a failure. "
                        "B2: recorded histories re-validated by TLC; non-trivial = walks with a retransmission and a "
                        "suppressed duplicate.")
@@ -697,14 +699,14 @@ def run(chk: Check):
     traces = []
     # receive-heavy, depth bounded
     traces += _b1(chk, dict(base, RelPids="{1,2}", UnrelPids="{3}", MaxRcv=2, MaxSends=2, MaxUnrel=1,
-                            Depth=5 if quick else 6), "recv", 41 if quick else 97)
+                            Depth=5 if quick else 6), "recv", 41 if quick else 97, max_pairs=10000 if quick else 0)
     # timer-heavy, unbounded depth: budget exhaustion, retransmission counts
     traces += _b1(chk, dict(base, RelPids="{}", UnrelPids="{1}", MaxRcv=1, MaxSends=2, MaxUnrel=0, MaxAcks=1, Depth=0),
                   "timer", 7)
     # subscribers that remove themselves during dispatch, registered before / after permanent ones, both levels
     traces += _b1(chk, dict(base, RelPids="{1}", UnrelPids="{2}", MaxRcv=2, MaxSends=0, MaxUnrel=0, MaxAcks=0, Ticks="{}",
                             MaxSubs=2, SubKinds='{"perm", "once", "retTrue", "waitfor"}', Depth=5 if quick else 6),
-                  "subscribers", 61 if quick else 211)
+                  "subscribers", 61 if quick else 211, max_pairs=8000 if quick else 0)
     if not quick:
         traces += _b1(chk, dict(base, RelPids="{1}", UnrelPids="{}", MaxRcv=3, MaxSends=1, MaxUnrel=1,
                                 Ticks="{%d, %d, %d}" % (every - 1, every, 1), Depth=9), "edge-times", 211)
